@@ -277,7 +277,7 @@ def run(tier, seed, replay):
 
     # ---- 1. generator paths
     gens = [("WxmlGen", "WxmlGen_q", None), ("CssGen", "CssGen_3", None), ("CssGen", "CssGen_q", (6, seed))] if quick else \
-           [("WxmlGen", "WxmlGen_t", None), ("WxmlGen", "WxmlGen_6", (12, seed)), ("CssGen", "CssGen_q", None), ("CssGen", "CssGen_t", (8, seed))]
+           [("WxmlGen", "WxmlGen_t", None), ("CssGen", "CssGen_q", None), ("CssGen", "CssGen_t", (12, seed))]
     covered = {}
     for module, cfg, sample in gens:
         table, paths, res = totalrun.generator_cases(module, cfg, sample=sample, seed=seed)
